@@ -283,6 +283,21 @@ impl Ins {
             den_bytes(r.den@) == ty.bits_ / 8, r.den@ == load_den(ptr_base(p), ptr_off(p) + off, ty.bits_ as int, self.pos@),
             ty.is_float ==> is_float_of(r.den@, ty.bits_ as nat), !ty.is_float ==> (r.den@ is Addr || is_int_of(r.den@, ty.bits_ as nat)),
     { unimplemented!() }
+    // "Load 8 bits from memory at p + Offset" and sign- / zero-extend them to the requested type
+    #[verifier::external_body]
+    pub fn sload8(self, ty: types::Type, flags: MemFlags, p: Value, off: i32) -> (r: Value)
+        requires !ty.is_float, ty.bits_ >= 8
+        ensures self.ev@ == (Ev::Read { base: ptr_base(p), lo: ptr_off(p) + off, hi: ptr_off(p) + off + 1 }),
+            ({ let b = load_den(ptr_base(p), ptr_off(p) + off, 8, self.pos@);
+               b is Int ==> r.den@ == (Den::Int { bits: ty.bits_ as nat, val: tc(ty.bits_ as nat, sint(8, b->Int_val)) }) }),
+    { unimplemented!() }
+    #[verifier::external_body]
+    pub fn uload8(self, ty: types::Type, flags: MemFlags, p: Value, off: i32) -> (r: Value)
+        requires !ty.is_float, ty.bits_ >= 8
+        ensures self.ev@ == (Ev::Read { base: ptr_base(p), lo: ptr_off(p) + off, hi: ptr_off(p) + off + 1 }),
+            ({ let b = load_den(ptr_base(p), ptr_off(p) + off, 8, self.pos@);
+               b is Int ==> r.den@ == (Den::Int { bits: ty.bits_ as nat, val: b->Int_val }) }),
+    { unimplemented!() }
     // "Add immediate integer": on a pointer it moves the offset inside the same object
     #[verifier::external_body]
     pub fn iadd_imm(self, x: Value, imm: i64) -> (r: Value)
